@@ -113,7 +113,7 @@ def run(ctx):
         fields = [f for f in cpu.diff_fields(pp, ps) if f != "f_hi"]
         if fields:
             fam = family(case, mn, {**pp, "r": pm.get("r", [])}, ps, fields)
-            ctx.report(["py", fam, mn], f"{mn} ({case[0]} at {case[1]:#x}): Python result differs from the documented effect in {fields}",
+            ctx.report(["py", fam] if fam == "instruction_overwrites_BP_PX_PY_it_addresses_with" else ["py", fam, mn], f"{mn} ({case[0]} at {case[1]:#x}): Python result differs from the documented effect in {fields}",
                        {"case": "exec_py " + l, "python": p[:400], "documented": sp[:400], "fields": fields})
     ctx.extra["disagreements"]["exec"] = dis
     ctx.extra["cases_without_spec"] = nospec
